@@ -29,8 +29,9 @@
 (*              LoadRaw of T; Dumps / Save / Dump(StringIO) / Dump(file);  *)
 (*              Loads / Open / Load / LoadRaw of what was written          *)
 (*                                                                         *)
-(* The constants SaveCodec, Newlines and ExitRule select the contract      *)
-(* ("utf8", "verbatim", "contract") or a deliberately broken variant that  *)
+(* The constants SaveCodec, Newlines, ExitRule, RootSchema and DumpOptions  *)
+(* select the contract ("utf8", "verbatim", "contract", "own", "same") or  *)
+(* a deliberately broken variant that                                      *)
 (* the invariants must reject (non-vacuity; two of them are the behaviour  *)
 (* of the unchanged implementation).                                       *)
 (***************************************************************************)
@@ -45,7 +46,9 @@ CONSTANTS
     Layouts,       \* "one" | "some" | "all": how many print layouts the api scenario enumerates
     SaveCodec,     \* "utf8" (contract) | "latin1" (broken variant of save)
     Newlines,      \* "verbatim" (contract) | "universal" (open()/text-mode file objects translate CR, CRLF -> LF)
-    ExitRule       \* "contract" | "raw" (sys.exit(problems)) | "skip-unparsed" (parse failures not counted)
+    ExitRule,      \* "contract" | "raw" (sys.exit(problems)) | "skip-unparsed" (parse failures not counted)
+    RootSchema,    \* "own" (contract: every root object against the schema of its type) | "map" (always the MAP schema)
+    DumpOptions    \* "same" (contract) | "sc-from-av" (dump mixes up two of its formatting options)
 
 VARIABLES scen, pc, fs, env, mem, res, buf, pend, obs, hist
 
@@ -155,29 +158,41 @@ PostOf(r) == IF r.k = "dict" THEN [ok |-> TRUE, strs |-> r.strs, inc |-> r.inc, 
              ELSE [ok |-> FALSE, strs |-> <<>>, inc |-> "na", com |-> "absent"]
 Describe(f) == IF f.k = "map" THEN [written |-> TRUE,
                                     enc |-> IF \A i \in DOMAIN f.units : Utf8OK(f.units[i]) THEN "utf8" ELSE "other",
-                                    strs |-> [i \in DOMAIN f.units |-> Decode(f.units[i])]]
-               ELSE [written |-> FALSE, enc |-> "none", strs |-> <<>>]
-DescribeText(t) == [written |-> TRUE, enc |-> "chars", strs |-> t.strs]
+                                    strs |-> [i \in DOMAIN f.units |-> Decode(f.units[i])], lay |-> f.lay]
+               ELSE [written |-> FALSE, enc |-> "none", strs |-> <<>>, lay |-> "none"]
+DescribeText(t) == [written |-> TRUE, enc |-> "chars", strs |-> t.strs, lay |-> t.lay]
 
 -----------------------------------------------------------------------------
 (* Scenario "validate"                                                     *)
 
-FileKinds == {[k |-> "valid", n |-> 0], [k |-> "unparseable", n |-> 0], [k |-> "versioned", n |-> 1]}
-             \cup {[k |-> "invalid", n |-> c] : c \in ErrCounts}
+\* files rooted at MAP ...
+MapKinds == {[k |-> "valid", n |-> 0], [k |-> "unparseable", n |-> 0], [k |-> "versioned", n |-> 1]}
+            \cup {[k |-> "invalid", n |-> c] : c \in ErrCounts}
+\* ... and partial Mapfiles: one root object that is not a MAP (n messages under the schema of its own
+\* type), or two root LAYERs (the dictionary is a list; n messages in all)
+PartialRoots == {"layer", "class", "web", "style"}
+PartialKinds == {[k |-> "partial", root |-> r, n |-> c] : r \in PartialRoots, c \in {0, 1}}
+                \cup {[k |-> "multiroot", n |-> c] : c \in {0, 2}}
+FileKinds == MapKinds \cup PartialKinds
+IsPartial(kind) == kind.k \in {"partial", "multiroot"}
+\* number of root objects that are not MAPs
+ForeignRoots(kind) == CASE kind.k = "partial" -> 1 [] kind.k = "multiroot" -> 2 [] OTHER -> 0
 
 \* messages of a file kind under a version: "versioned" uses a LAYER keyword removed after 7.6
-KindErr(kind, v) == CASE kind.k = "invalid" -> kind.n
+KindErr(kind, v) == CASE kind.k \in {"invalid", "partial", "multiroot"} -> kind.n
                       [] kind.k = "versioned" -> IF v = "7.6" THEN 0 ELSE kind.n
                       [] OTHER -> 0
 ContentOf(kind) == IF kind.k = "unparseable" THEN Garbage
                    ELSE [k |-> "map", doc |-> kind.k, units |-> << Encode(<<"ascii">>, "utf8") >>, inc |-> "na",
-                         com |-> "absent", lay |-> "source", nerr |-> [v \in Versions |-> KindErr(kind, v)]]
+                         com |-> "absent", lay |-> "source", nerr |-> [v \in Versions |-> KindErr(kind, v)],
+                         foreign |-> ForeignRoots(kind)]
 
 FilePaths == <<"f1", "f2", "f3">>
 
 ValEnv ==
     /\ pc = "env" /\ scen = "validate"
     /\ \E n \in 1..MaxFiles : \E kinds \in [1..n -> FileKinds] :
+         /\ ((\E i \in 1..n : IsPartial(kinds[i])) => n <= 2)         \* (bound: partial files in sets of one or two)
          /\ fs' = [p \in Paths |-> IF \E i \in 1..n : FilePaths[i] = p
                                    THEN ContentOf(kinds[CHOOSE i \in 1..n : FilePaths[i] = p]) ELSE fs[p]]
          /\ env' = [files |-> [i \in 1..n |-> FilePaths[i]], kinds |-> kinds]
@@ -190,11 +205,17 @@ RECURSIVE SumSeq(_)
 SumSeq(s) == IF s = <<>> THEN 0 ELSE Head(s) + SumSeq(Tail(s))
 
 Parses(f) == f.k = "map"
+\* mappyfile.validate(d, v): the messages of every root object under the schema of its own type
+ApiMessages(f, v) == f.nerr[v]
+\* the messages the command prints are the API's; under the broken variant every root that is not a MAP
+\* is held against the MAP schema and collects messages of its own (unknown keyword, missing ones)
+CliMessages(f, v) == IF RootSchema = "own" \/ ~("foreign" \in DOMAIN f) THEN ApiMessages(f, v)
+                     ELSE ApiMessages(f, v) + 2 * f.foreign
 \* what `validate` prints for one file: one line per message, or one line saying it is fine / did not parse
 FileReport(f, v) == IF ~Parses(f) THEN [r |-> "parsefail", n |-> 1]
-                    ELSE IF f.nerr[v] = 0 THEN [r |-> "ok", n |-> 1]
-                    ELSE [r |-> "messages", n |-> f.nerr[v]]
-FileProblems(f, v) == IF ~Parses(f) THEN (IF ExitRule = "skip-unparsed" THEN 0 ELSE 1) ELSE f.nerr[v]
+                    ELSE IF ApiMessages(f, v) = 0 THEN [r |-> "ok", n |-> 1]
+                    ELSE [r |-> "messages", n |-> ApiMessages(f, v)]
+FileProblems(f, v) == IF ~Parses(f) THEN (IF ExitRule = "skip-unparsed" THEN 0 ELSE 1) ELSE CliMessages(f, v)
 
 AllGood(files, v)  == \A i \in 1..Len(files) : Parses(fs[files[i]]) /\ fs[files[i]].nerr[v] = 0
 Problems(files, v) == SumSeq([i \in 1..Len(files) |-> FileProblems(fs[files[i]], v)])
@@ -253,7 +274,8 @@ ApiIndent(a) == CASE a = "default" -> 4 [] a = "0" -> 0 [] a = "1" -> 1 [] a = "
 ApiLay(args) == [indent |-> ApiIndent(args.indent),
                  spacer |-> IF args.spacer \in {"default", "space"} THEN "space" ELSE "tab",
                  quote  |-> IF args.quote = "single" THEN "single" ELSE "double",
-                 nl     |-> IF args.nl = "crlf-escaped" THEN "crlf" ELSE "lf"]
+                 nl     |-> IF args.nl = "crlf-escaped" THEN "crlf" ELSE "lf",
+                 ec |-> FALSE, av |-> FALSE, sc |-> FALSE]     \* the command has no switch for these: API defaults
 ApiExpand(a)   == a # "no-expand"
 ApiComments(a) == a = "comments"
 
@@ -332,14 +354,17 @@ SchApi ==
 -----------------------------------------------------------------------------
 (* Scenario "api"                                                          *)
 
-LayAll  == [indent : {0, 1, 2, 4, 8}, spacer : {"space", "tab"}, quote : {"double", "single"}, nl : {"lf", "crlf"}]
-LayDefault == [indent |-> 4, spacer |-> "space", quote |-> "double", nl |-> "lf"]
+\* ec: end_comment, av: align_values, sc: separate_complex_types (blocks printed after the simple keywords)
+LayAll  == [indent : {0, 1, 2, 4, 8}, spacer : {"space", "tab"}, quote : {"double", "single"}, nl : {"lf", "crlf"},
+            ec : BOOLEAN, av : BOOLEAN, sc : BOOLEAN]
+LayDefault == [indent |-> 4, spacer |-> "space", quote |-> "double", nl |-> "lf", ec |-> FALSE, av |-> FALSE, sc |-> FALSE]
 \* (operators with an argument: TLC evaluates constant-level definitions once, and a draw must be fresh per behaviour)
 LayChoices(h) == IF Mode = "walk"
               THEN {[indent |-> RandomElement({0, 1, 2, 4, 8}), spacer |-> RandomElement({"space", "tab"}),
-                     quote |-> RandomElement({"double", "single"}), nl |-> RandomElement({"lf", "crlf"})]}
+                     quote |-> RandomElement({"double", "single"}), nl |-> RandomElement({"lf", "crlf"}),
+                     ec |-> RandomElement(BOOLEAN), av |-> RandomElement(BOOLEAN), sc |-> RandomElement(BOOLEAN)]}
               ELSE IF Layouts = "one" THEN {LayDefault}
-              ELSE IF Layouts = "some" THEN {l \in LayAll : l.indent \in {1, 4}}
+              ELSE IF Layouts = "some" THEN {l \in LayAll : l.indent = 4 /\ l.spacer = "space"}
               ELSE LayAll
 KindChoices(h) == IF Mode = "walk" THEN {[i \in StrIds |-> RandomElement(StrKinds)]} ELSE [StrIds -> StrKinds]
 
@@ -380,17 +405,20 @@ ReadT ==
              /\ pc' = IF rest = {} THEN "write" ELSE pc
     /\ UNCHANGED <<scen, fs, env, mem, buf, obs>>
 
-\* the four writers print mem with the layout of the behaviour
+\* the four writers print mem with the layout of the behaviour.  Every call gets its own copy of mem
+\* (mem is UNCHANGED): the printer may reorder the dictionary it is handed when sc is set.
+DumpLay(lay) == IF DumpOptions = "same" THEN lay ELSE [lay EXCEPT !.sc = lay.av]
 Write ==
     /\ pc = "write"
     /\ \E op \in NextOps(pend) :
          LET t    == StrText(mem, env.lay)
+             td   == StrText(mem, DumpLay(env.lay))
              nbuf == IF op = "dumps" THEN [buf EXCEPT !.s = t]
-                     ELSE IF op = "dump-sio" THEN [buf EXCEPT !.sio = t] ELSE buf
+                     ELSE IF op = "dump-sio" THEN [buf EXCEPT !.sio = td] ELSE buf
              nfs  == IF op = "save" THEN [fs EXCEPT !["s"] = SaveTo(mem, env.lay)]
-                     ELSE IF op = "dump-file" THEN [fs EXCEPT !["d"] = FileOf(t, "utf8")]   \* the caller's UTF-8 file, newline=""
+                     ELSE IF op = "dump-file" THEN [fs EXCEPT !["d"] = FileOf(td, "utf8")]  \* the caller's UTF-8 file, newline=""
                      ELSE fs
-             post == IF op \in {"dumps", "dump-sio"} THEN DescribeText(t)
+             post == IF op = "dumps" THEN DescribeText(t) ELSE IF op = "dump-sio" THEN DescribeText(td)
                      ELSE IF op = "save" THEN Describe(nfs["s"]) ELSE Describe(nfs["d"])
              rest == pend \ {op}
          IN  /\ buf' = nbuf
